@@ -76,10 +76,16 @@ class SequenceLeg(object):
                 lines.append(r["seq"][i : i + r["width"]])
         import os
 
-        # the same path is rewritten for every case of this process: the file named now is what counts
-        path = os.path.join(ctx.tmp, "ref.fa")
+        # the same path is rewritten for every case of this process, and the index file written by an
+        # earlier case is still lying next to it: the file named now is what counts
+        keep = os.path.join(ctx.root, "fasta")
+        os.makedirs(keep, exist_ok=True)
+        path = os.path.join(keep, "ref.fa")
         with open(path, "w") as fh:
             fh.write("\n".join(lines) + "\n")
+        st_ = os.stat(path)
+        os.utime(path, (st_.st_atime, st_.st_mtime + 2 * (ctx._n + 1)))  # strictly newer than any index left behind
+        ctx._n += 1
         fa = None
         for f in case["features"]:
             r = case["records"][f["rec"]]
@@ -163,6 +169,7 @@ class Bed12Leg(object):
                 "thick": draw(st.sampled_from(["CDS", ["CDS"], None])),
                 "color": draw(st.sampled_from([None, None, "255,0,0", "1, 2, 3"])),
                 "always_return_list": draw(st.integers(0, 5)) > 0,
+                "two_level": draw(st.integers(0, 3)) == 0,
             }
 
         return case()
@@ -195,9 +202,14 @@ class Bed12Leg(object):
 
         nm = ";Name=the name" if case["has_name"] else ""
         lines = ["\t".join(["chr1", "src", "mRNA", str(case["tstart"]), str(case["tend"]), case["score"], case["strand"], ".", "ID=tx" + nm])]
+        if case.get("two_level"):
+            # an intermediate feature between the transcript and some of its blocks: those blocks are related
+            # to the transcript at level 1 and at level 2, and still count once
+            lines.append("\t".join(["chr1", "src", "segment", str(case["tstart"]), str(case["tend"]), ".", case["strand"], ".", "ID=seg;Parent=tx"]))
         for k in case["order"]:
             a, b = case["exons"][k]
-            lines.append("\t".join(["chr1", "src", "exon", str(a), str(b), ".", case["strand"], ".", "ID=e%d;Parent=tx" % k]))
+            par = "tx,seg" if (case.get("two_level") and k % 2 == 0) else "tx"
+            lines.append("\t".join(["chr1", "src", "exon", str(a), str(b), ".", case["strand"], ".", "ID=e%d;Parent=%s" % (k, par)]))
         for i in case.get("cds_order", range(len(case["cds"]))):  # file order need not be coordinate order
             a, b = case["cds"][i]
             lines.append("\t".join(["chr1", "src", "CDS", str(a), str(b), ".", case["strand"], "0", "ID=c%d;Parent=tx" % i]))
